@@ -124,6 +124,23 @@ def build(cfg):
         if cfg.get("rev", True):
             return S.StreamReversed(inner, L, sample_width=2), rev_words(seg_logical[off:off + L], 2), 2
         return inner, seg_logical[off:off + L], 0
+    if k == "late_window":
+        # a window laid over a parent VIEW (which knows its own length) that has already been read / moved when the window
+        # is built -- the way a second sample, or a second export, finds the partition stream
+        pk, ppos, off, L = cfg["parent"], cfg["ppos"], cfg["off"], cfg["L"]
+        if pk == "offset":
+            raw = base_bytes(24)
+            parent, pl = S.StreamOffset(io.BytesIO(raw), 16, 5), raw[5:21]
+        elif pk == "file":
+            raw = base_bytes(4 * 4 + 1)
+            parent, pl = F.FileStream(io.BytesIO(raw), 4, [2, 0, 3, 1]), chain_logical(raw, 4, [2, 0, 3, 1])
+        else:
+            raw = base_bytes(7 * 4)
+            parent, pl = MDF.MdfStream(io.BytesIO(raw)), mdf_logical(raw, 2, 4, 1)
+        parent.seek(ppos, 0)
+        if cfg.get("pread"):
+            parent.read(cfg["pread"])
+        return S.StreamOffset(parent, L, off), pl[off:off + L], 0
     if k == "nest_mdx":
         o1, o2, L = cfg["o1"], cfg["o2"], cfg["L"]
         raw = base_bytes(o1 + o2 + L + cfg.get("tail", 0))
@@ -225,9 +242,10 @@ def pair_configs():
     out.append({"pair": "mdf", "hbf": [2, 4, 1], "n": 3, "a": [3, 6], "b": [3, 6], "s": 4})
     out.append({"pair": "files2", "sector": 4, "a": [1, 0], "b": [1, 0], "s": 4})
     out.append({"pair": "files2", "sector": 4, "a": [0, 2], "b": [2, 1], "s": 4})
-    out.append({"pair": "mdf2", "hbf": [2, 4, 1], "n": 3, "s": 4})
-    out.append({"pair": "file-over-mdf", "hbf": [2, 4, 1], "n": 6, "sector": 4, "a": [4, 0], "s": 4})
-    out.append({"pair": "file-over-mdf", "hbf": [2, 4, 1], "n": 6, "sector": 4, "a": [0, 4, 2], "s": 4})
+    # (wide: the product graph of these does not close under the state cap; they are explored to a depth bound in both tiers)
+    out.append({"pair": "mdf2", "hbf": [2, 4, 1], "n": 3, "s": 4, "wide": True})
+    out.append({"pair": "file-over-mdf", "hbf": [2, 4, 1], "n": 6, "sector": 4, "a": [4, 0], "s": 4, "wide": True})
+    out.append({"pair": "file-over-mdf", "hbf": [2, 4, 1], "n": 6, "sector": 4, "a": [0, 4, 2], "s": 4, "wide": True})
     return out
 
 
@@ -252,7 +270,7 @@ def cfg_ctx(cfg):
         return contextlib.nullcontext()
     if cfg["kind"] == "mdf":
         return MdfConsts(*cfg["hbf"])
-    if cfg["kind"] == "nest_akai" and cfg.get("mdf"):
+    if cfg["kind"] in ("nest_akai", "late_window") and cfg.get("mdf"):
         return MdfConsts(*cfg["mdf"])
     import contextlib
     return contextlib.nullcontext()
@@ -305,6 +323,11 @@ def configs(quick):
         out.append({"kind": "nest_roland_rev", "sector": 4, "chain": chain, "poff": 6, "off": off, "L": L, "s": 4})
         out.append({"kind": "nest_roland_rev", "sector": 4, "chain": chain, "poff": 6, "off": off, "L": L,
                     "rev": False, "s": 4})
+    for pk in ("offset", "file", "mdf"):
+        for ppos, pread in ((0, 0), (3, 0), (9, 0), (14, 0), (16, 0), (0, 16), (5, 4)):
+            for off, L in ((0, 16), (8, 8), (4, 6)):
+                out.append({"kind": "late_window", "parent": pk, "ppos": ppos, "pread": pread, "off": off, "L": L, "s": 4,
+                            **({"mdf": [2, 4, 1]} if pk == "mdf" else {})})
     for o1, o2, L, tail in ((0, 0, 4, 0), (2, 3, 5, 0), (2, 3, 5, 4), (64, 0, 8, 0)):
         out.append({"kind": "nest_mdx", "o1": o1, "o2": o2, "L": L, "tail": tail, "s": 4})
     return out
@@ -404,7 +427,7 @@ class Check(CheckBase):
     id = "C08"
     level = "model_checking"
     title = "Byte-window views behave as read-only files under any seek/read history"
-    rule = ("per stream configuration: BFS over {seek(o,whence), read(n), read(-1), tell} from the fresh "
+    rule = ("per stream configuration (incl. 63 windows built over a parent view that was already moved / read to its end): BFS over {seek(o,whence), read(n), read(-1), tell} from the fresh "
             "object on the real classes, dedup on canonical layer-stack state, to fixed point; plus all "
             "un-deduplicated op sequences to depth d (quick 2 / thorough 3) on fresh objects; every edge "
             "compared with a bytes-slice reference; raw-sector (MDF) view additionally for EVERY sector count 1..159 (thorough "
@@ -416,7 +439,8 @@ class Check(CheckBase):
             "views over one shared parent, over two parents with different bytes at the same addresses, or one over the other (two windows, wrapper + window, two chained files of one partition window, the same file "
             "twice, two nested sample stacks, reversed + forward window over one chained file, two windows over one raw-sector view): "
             "BFS over the union of both views' alphabets plus direct seeks / reads on the shared parent, product state, to depth 3 "
-            "with a 10-operation alphabet per view (quick) / to fixed point with the full alphabet (thorough), every view checked against its own reference; non-trivial = state with cursor on a sector boundary "
+            "with a 10-operation alphabet per view (quick) / to fixed point with the full alphabet (thorough; the three widest configurations to depth 4 with the small "
+            "alphabet, reported as depth-bounded), every view checked against its own reference; non-trivial = state with cursor on a sector boundary "
             "or at the logical end, or a read edge spanning >=1 sector boundary")
     assumptions = ["views are non-empty; whence always passed explicitly",
                    "reversed view: requested size unaligned but clipped size aligned may be accepted or rejected",
@@ -448,7 +472,7 @@ class Check(CheckBase):
             out.append({"mode": "long", "kind": k})
         # two views over one shared parent: product graph of both views' histories (plus direct use of the parent)
         for c in pair_configs():
-            out.append({"mode": "pairbfs", "cfg": c, "maxdepth": 3 if self.quick else 0})
+            out.append({"mode": "pairbfs", "cfg": c, "maxdepth": 3 if self.quick else (4 if c.get("wide") else 0)})
         return out
 
     # --
@@ -560,7 +584,7 @@ class Check(CheckBase):
         return [a, b, parent], [RefFile(ca, wa), RefFile(cb, wb)], (wa, wb)
 
     def _pair_ops(self, cfg, models):
-        q = self.quick
+        q = self.quick or bool(cfg.get("wide"))
         ops = [["a"] + op for op in pair_alphabet(cfg, models[0].L, q)] + [["b"] + op for op in pair_alphabet(cfg, models[1].L, q)]
         # somebody else uses the shared parent directly (the listing code does): moves it, reads from it
         ops += [["p", "seek", 3, 0], ["p", "read", 2]] if q else [["p", "seek", 0, 0], ["p", "seek", 3, 0], ["p", "seek", 0, 2], ["p", "read", 2]]
